@@ -17,6 +17,7 @@ from .. import anf
 from .common import struct_ob, formula_ob, guard, last_return, U
 from . import mcmc
 from ..report import AnalysisError
+from ..term import Resolver, pmatch, find_all, abstract, anf_of
 
 FLOORS = {"pair-append": 5, "append-provenance": 4, "init-pair": 3, "exchange-pair": 3,
           "replace-last": 2, "mode": 3, "ownership": 6, "walker-pair": 1, "ensemble-append": 1,
@@ -351,106 +352,90 @@ def _exchange(prog):
                 and n.test.comparators[0].value == "update_position":
             branch = n
     ok, why = False, "handler for 'update_position' not found"
+    chain = tp.args.args[0].arg
+    rt = Resolver(tp, prog, mi, None)
     if branch is not None:
-        txt = [U(s) for s in branch.body]
-        chain = tp.args.args[0].arg
-        c1 = any(t == f"{chain}.replace_last(D['position'])" for t in txt)
+        msg = branch.test.left.value.id if isinstance(branch.test.left, ast.Subscript) and isinstance(branch.test.left.value, ast.Name) else "D"
+        c1 = False
+        for n in ast.walk(ast.Module(body=branch.body, type_ignores=[])):
+            if isinstance(n, ast.Call) and U(n.func) == f"{chain}.replace_last" and len(n.args) == 1:
+                c1 = U(rt.term(n.args[0], rt.stmt_of(n), keep=(msg,))) == f"{msg}['position']"
         # ANF: stored = D["probability"] * inv_temp(receiver)
         c2 = False
-        for s in branch.body:
-            if isinstance(s, ast.Assign) and U(s.targets[0]) == f"{chain}.probs[-1]":
-                ex = Expander(prog, mi, None)
+        for s_ in ast.walk(ast.Module(body=branch.body, type_ignores=[])):
+            if isinstance(s_, ast.Assign) and U(s_.targets[0]) == f"{chain}.probs[-1]":
+                ab, _ = abstract(rt.term(s_.value, s_, keep=(msg,)), [(f"{msg}['probability']", "P"), (f"{chain}.inv_temp", "B")])
                 try:
-                    v = ex.eval(s.value, {})
-                    c2 = v.eq(R.sym("D['probability']") * R.sym(f"{chain}.inv_temp"))
+                    c2 = anf_of(ab).eq(R.sym("P") * R.sym("B"))
                 except Exception:
                     c2 = False
-        ok = c1 and c2 and len(branch.body) == 2
-        why = f"handler body: {txt}"
+        ok = c1 and c2
+        why = f"position installed from the message: {c1}; probability = message probability x receiver's inverse temperature: {c2}"
     out.append(struct_ob("exchange-pair", f"{mi.name}.tempering_process[update_position]", ok,
                          "the exchange handler must install the received position and its probability re-expressed at "
                          "the receiving temperature, together: " + why, rel, tp.lineno))
     # swap: each message built from one index; crossed sends; probability de-tempered with its own index
     c, sw = prog.method("ParallelTempering", "swap")
+    rs = Resolver(sw, prog, mi, c)
     loop = None
     for n in sw.body:
         if isinstance(n, ast.For) and isinstance(n.target, ast.Tuple) and len(n.target.elts) == 2:
             loop = n
     ok, why = False, "pair loop not found"
-    ok2, why2 = False, "pair loop not found"
     if loop is not None:
         i, j = [e.id for e in loop.target.elts]
-        ex = Expander(prog, mi, prog.cls("ParallelTempering"))
-        ex.opaque_self_attrs = {"inv_temps", "connections", "rng"}
-        env = {}
-        msgs = {}      # dict variable -> {key: value expr}
-        sends = []     # (pipe index text, message var)
-        accept_if = None
-        for st in ast.walk(loop):
-            if isinstance(st, ast.Assign) and isinstance(st.value, ast.Dict) and isinstance(st.targets[0], ast.Name):
-                msgs[st.targets[0].id] = {k.value: v for k, v in zip(st.value.keys, st.value.values) if isinstance(k, ast.Constant)}
-            if isinstance(st, ast.Call) and isinstance(st.func, ast.Attribute) and st.func.attr == "send" \
-                    and isinstance(st.func.value, ast.Subscript) and U(st.func.value.value) == "self.connections":
-                sends.append((U(st.func.value.slice), U(st.args[0])))
-        # index used by every field of a message
-        def msg_index(m):
-            idx = set()
-            pos = m.get("position")
-            prob = m.get("probability")
-            if isinstance(pos, ast.Subscript):
-                idx.add(("position", U(pos.slice)))
-            pv = prob
-            if isinstance(pv, ast.Name):
-                d = [s for s in loop.body if isinstance(s, ast.Assign) and U(s.targets[0]) == pv.id]
-                pv = d[-1].value if d else pv
-            subs = {U(n.slice) for n in ast.walk(pv) if isinstance(n, ast.Subscript)}
-            idx.add(("probability", ",".join(sorted(subs))))
-            return idx, pv
-        good = True
-        detail = []
-        owner = {}
-        for name, m in msgs.items():
-            idx, pv = msg_index(m)
-            ks = {v for _, v in idx}
-            detail.append(f"{name}:{sorted(idx)}")
-            if len(ks) != 1 or m.get("task") is None or getattr(m.get("task"), "value", None) != "update_position":
+        # the reply tables: fields 0 / 1 of the per-chain replies
+        tables = {}
+        for s_ in sw.body:
+            if isinstance(s_, ast.Assign) and isinstance(s_.targets[0], ast.Name):
+                t_ = rs.term(s_.value, s_)
+                for fld in (0, 1):
+                    if pmatch(t_, f"[_e[{fld}] for _e in [_p.recv() for _p in self.connections]]") is not None:
+                        tables[fld] = s_.targets[0].id
+        detail, crossed, good = [], [], True
+        sends = [(n, rs.stmt_of(n)) for n in ast.walk(loop) if isinstance(n, ast.Call) and isinstance(n.func, ast.Attribute)
+                 and n.func.attr == "send" and isinstance(n.func.value, ast.Subscript) and U(n.func.value.value) == "self.connections"]
+        for call, st_ in sends:
+            pipe = U(call.func.value.slice)
+            m = rs.term(call.args[0], st_, keep=tuple(tables.values())) if call.args else None
+            if not isinstance(m, ast.Dict):
                 good = False
-            else:
-                owner[name] = ks.pop()
-                # de-tempered with its own temperature: probabilities[k] / inv_temps[k]
+                detail.append(f"message to pipe {pipe} is `{U(m)[:120] if m is not None else None}`")
+                continue
+            fields = {k.value: v for k, v in zip(m.keys, m.values) if isinstance(k, ast.Constant)}
+            bpos = pmatch(fields.get("position"), f"{tables.get(0, 'MISSING0')}[_k]") if "position" in fields else None
+            owner = bpos["_k"] if bpos else None
+            okp = False
+            if owner is not None and "probability" in fields:
+                ab, _ = abstract(fields["probability"], [(f"{tables.get(1, 'MISSING1')}[{owner}]", "P"), (f"self.inv_temps[{owner}]", "B")])
                 try:
-                    v = ex.eval(pv, {})
-                    k = owner[name]
-                    want = R.sym(f"probabilities[{k}]").div(R.sym(f"self.inv_temps[{k}]"))
-                    if not v.eq(want):
-                        good = False
-                        detail.append(f"{name}.probability = {v}, expected {want}")
-                except Exception as e:
-                    good = False
-                    detail.append(f"{name}.probability not expandable: {e}")
-        crossed = sorted((pipe, owner.get(m)) for pipe, m in sends)
-        ok = good and len(msgs) == 2 and crossed == sorted([(i, j), (j, i)])
-        why = f"messages {detail}; sends (pipe, owner index of message) {crossed}"
-        ok2 = ok
+                    okp = anf_of(ab).eq(R.sym("P").div(R.sym("B")))
+                except Exception:
+                    okp = False
+            task = fields.get("task")
+            if owner is None or not okp or not (isinstance(task, ast.Constant) and task.value == "update_position"):
+                good = False
+                detail.append(f"message to pipe {pipe}: position `{U(fields['position']) if 'position' in fields else None}`, probability "
+                              f"`{U(fields['probability'])[:120] if 'probability' in fields else None}`")
+            crossed.append((pipe, owner))
+        ok = good and len(sends) == 2 and sorted(crossed) == sorted([(i, j), (j, i)]) and set(tables) == {0, 1}
+        why = f"reply tables {tables}; sends (pipe, owner index of message) {sorted(crossed, key=str)}; {detail}"
     out.append(struct_ob("exchange-pair", qual(c, sw) + "[messages]", ok,
                          "each exchange message must carry position and de-tempered probability of one chain k and be "
                          "sent to the other chain's pipe: " + why, rel, sw.lineno))
     # positions / probabilities unpacked from the same reply in the same order as worker sends
-    src = {U(s.targets[0]): U(s.value) for s in sw.body if isinstance(s, ast.Assign)}
     worker_reply = None
     for n in ast.walk(tp):
         if isinstance(n, ast.If) and isinstance(n.test, ast.Compare) and isinstance(n.test.comparators[0], ast.Constant) \
                 and n.test.comparators[0].value == "send_position":
-            for s in n.body:
-                if isinstance(s, ast.Expr) and isinstance(s.value, ast.Call) and U(s.value.func).endswith(".send"):
-                    worker_reply = U(s.value.args[0])
-    chain = tp.args.args[0].arg
-    ok3 = (src.get("positions") == "[k[0] for k in data]" and src.get("probabilities") == "[k[1] for k in data]"
-           and src.get("data") == "[pipe.recv() for pipe in self.connections]"
-           and worker_reply == f"({chain}.get_last(), {chain}.probs[-1])")
+            for s_ in ast.walk(ast.Module(body=n.body, type_ignores=[])):
+                if isinstance(s_, ast.Call) and U(s_.func).endswith(".send") and s_.args:
+                    worker_reply = rt.term(s_.args[0], rt.stmt_of(s_))
+    ok3 = (loop is not None and set(tables) == {0, 1} and worker_reply is not None
+           and pmatch(worker_reply, f"({chain}.get_last(), {chain}.probs[-1])") is not None)
     out.append(struct_ob("exchange-pair", qual(c, sw) + "[reply-unpack]", ok3,
                          f"positions/probabilities must be fields 0/1 of the worker's (position, probability) reply; "
-                         f"worker sends {worker_reply}; parent: {src.get('positions')} / {src.get('probabilities')}",
+                         f"worker sends {U(worker_reply) if worker_reply is not None else None}; parent tables: {tables if loop is not None else None}",
                          rel, sw.lineno))
     return out
 
